@@ -432,3 +432,134 @@ Proof.
   - rewrite (append_assoc_helper code IN_COM text). rewrite drop_app_length. reflexivity.
   - clear. induction code as [|c r IH]; cbn; [reflexivity|rewrite IH; reflexivity].
 Qed.
+
+(* ---------- C08 / C03: a statement over several lines, each possibly followed by a trailing -- comment --------------------------------------- *)
+Section CommentedLines.
+  Variable parse_stmt : string -> res (option pyval).
+
+  (* a line of code, possibly with a trailing comment: after the '=' re-spacing it is l'; [code] is what stands before the first
+     "--" outside quoted literals (the whole line if there is none) and [cms] the comment text (none / the rest of the line) *)
+  Record commented_line (l l' code : string) (cms : list string) : Prop := {
+    cm_sub : re_sub RegexAst.re_equal_without_space " = " l = Ok l';
+    cm_not_comment : (startswith (strip l') MYSQL_COM || startswith (strip l') IN_COM) = false;
+    cm_cut : (contains l' IN_COM = false /\ code = l' /\ cms = []) \/ (contains l' IN_COM = true /\ process_in_comment l' = Ok (code, cms));
+    cm_no_close : contains l' CL_COM = false;
+    cm_no_open : contains l' OP_COM = false;
+    cm_code_no_close : contains code CL_COM = false;
+    cm_not_skipped : re_match_b RegexAst.re_skip_regex (upper (code_of code)) = Ok false;
+    cm_not_set : re_match_b RegexAst.re_set_statement (upper (code_of code)) = Ok false;
+    cm_nonempty : String.eqb (code_of code) "" = false
+  }.
+  Definition starts_stmt (code : string) : bool := existsb (fun k => startswith (upper (code_of code)) k) new_statement_tokens.
+
+  Lemma pre_commented_line l l' code cms st : commented_line l l' code cms ->
+    pre_process_line (collecting st) l = Ok (code, false, [], cms).
+  Proof.
+    intros [Hsub Hnc Hcut Hcl Hop Hccl _ _ _]. unfold pre_process_line. rewrite Hsub. cbn [bind multi_line_comment collecting]. rewrite Hnc. cbn [negb bind].
+    destruct Hcut as [[Hin [-> ->]]|[Hin Hp]].
+    - rewrite Hin, Hcl, Hop. cbn [negb andb bind block_comments collecting]. rewrite Hcl. cbn [andb bind].
+      rewrite (startswith_false_of_contains l' OP_COM Hop) by discriminate.
+      rewrite (startswith_false_of_contains l' CL_COM Hcl) by discriminate. reflexivity.
+    - rewrite Hin, Hp. cbn [bind]. rewrite Hop. cbn [bind block_comments collecting]. rewrite Hccl. cbn [andb bind].
+      rewrite (startswith_false_of_contains l' OP_COM Hop) by discriminate.
+      rewrite (startswith_false_of_contains l' CL_COM Hcl) by discriminate. reflexivity.
+  Qed.
+
+  Lemma commented_continuation l l' code cms st : commented_line l l' code cms -> endswith (code_of code) ";" = false ->
+    (st = None \/ starts_stmt code = false) ->
+    process_line parse_stmt (collecting st) l true = Ok (collecting (Some (joined st (code_of code))), ([], cms)).
+  Proof.
+    intros Hc Hend Hns. unfold process_line. rewrite (pre_commented_line l l' code cms st Hc). cbn [bind]. fold (code_of code).
+    destruct Hc as [_ _ _ _ _ _ Hsk Hset Hne]. rewrite Hsk, Hset. cbn [bind set_line set_was_in_line statement collecting].
+    rewrite Hend. cbn [andb orb]. rewrite Hne. cbn [negb andb].
+    assert (Hnew : match st with
+                   | Some s => negb (String.eqb s "") && Nat.eqb (count s "(") (count s ")")
+                               && existsb (fun k => startswith (upper (code_of code)) k) new_statement_tokens
+                   | None => false end = false).
+    { destruct st as [s|]; [|reflexivity]. destruct Hns as [Hns|Hns]; [discriminate|]. unfold starts_stmt in Hns. rewrite Hns. apply andb_false_r. }
+    rewrite Hnew. cbn [negb andb orb]. destruct st as [s|]; reflexivity.
+  Qed.
+
+  Lemma commented_closing l l' code cms st not_last : commented_line l l' code cms -> endswith (code_of code) ";" = true ->
+    (st = None \/ starts_stmt code = false) -> String.eqb (drop_last (joined st (code_of code))) "" = false ->
+    process_line parse_stmt (collecting st) l not_last =
+    (do r <- parse_stmt (drop_last (joined st (code_of code))); Ok (lm0, (entities_of r, cms))).
+  Proof.
+    intros Hc Hend Hns Hb. unfold process_line. rewrite (pre_commented_line l l' code cms st Hc). cbn [bind]. fold (code_of code).
+    destruct Hc as [_ _ _ _ _ _ Hsk Hset Hne]. rewrite Hsk, Hset. cbn [bind set_line set_was_in_line statement collecting].
+    rewrite Hend. cbn [negb andb orb]. rewrite Hne. cbn [negb andb].
+    assert (Hnew : match st with
+                   | Some s => negb (String.eqb s "") && Nat.eqb (count s "(") (count s ")")
+                               && existsb (fun k => startswith (upper (code_of code)) k) new_statement_tokens
+                   | None => false end = false).
+    { destruct st as [s|]; [|reflexivity]. destruct Hns as [Hns|Hns]; [discriminate|]. unfold starts_stmt in Hns. rewrite Hns. apply andb_false_r. }
+    rewrite Hnew. cbn [negb andb orb].
+    assert (Hj : nonempty (Some (joined st (code_of code))) = true).
+    { unfold nonempty, joined. destruct st as [s|]; [|rewrite Hne; reflexivity]. destruct s; cbn; reflexivity. }
+    assert (E : (match st with None => Some (code_of code) | Some s => Some (s ++ " " ++ code_of code)%string end) = Some (joined st (code_of code)))
+      by (destruct st; reflexivity).
+    rewrite E, Hj. cbn [orb andb]. cbn [nonempty]. rewrite Hb. cbn [negb andb bind].
+    destruct (parse_stmt (drop_last (joined st (code_of code)))) as [r| | |]; cbn [bind]; reflexivity.
+  Qed.
+
+  (* lines as (l, l', code, comments) *)
+  Definition cline := (string * string * string * list string)%type.
+  Definition cl_l (c : cline) := fst (fst (fst c)).
+  Definition cl_l' (c : cline) := snd (fst (fst c)).
+  Definition cl_code (c : cline) := snd (fst c).
+  Definition cl_cms (c : cline) := snd c.
+  Fixpoint join_ccodes (st : option string) (ls : list cline) : option string :=
+    match ls with [] => st | c :: r => join_ccodes (Some (joined st (code_of (cl_code c)))) r end.
+
+  (* the statement is parsed exactly as the same statement without any of the comments; the comment texts are reported in source
+     order in the comments output and nowhere else; the machine returns to its initial state *)
+  Theorem statement_over_commented_lines : forall (body : list cline) st (last : cline) more,
+    Forall (fun c => commented_line (cl_l c) (cl_l' c) (cl_code c) (cl_cms c) /\ endswith (code_of (cl_code c)) ";" = false
+                     /\ starts_stmt (cl_code c) = false) body ->
+    commented_line (cl_l last) (cl_l' last) (cl_code last) (cl_cms last) -> endswith (code_of (cl_code last)) ";" = true ->
+    starts_stmt (cl_code last) = false ->
+    String.eqb (drop_last (joined (join_ccodes st body) (code_of (cl_code last)))) "" = false ->
+    run_lines parse_stmt (collecting st) (map cl_l body ++ [cl_l last]) more =
+    (do r <- parse_stmt (drop_last (joined (join_ccodes st body) (code_of (cl_code last))));
+     Ok (lm0, (entities_of r, (flat_map cl_cms body ++ cl_cms last)%list))).
+  Proof.
+    induction body as [|b r IH]; intros st last more Hb Hc Hend Hns Hne.
+    - cbn [map app run_lines join_ccodes flat_map] in *. rewrite (commented_closing _ _ _ _ st _ Hc Hend (or_intror Hns) Hne).
+      destruct (parse_stmt (drop_last (joined st (code_of (cl_code last))))) as [x| | |]; cbn [bind]; try reflexivity. rewrite !app_nil_r. reflexivity.
+    - inversion Hb as [|? ? [H1 [H2 H3]] Hr]; subst. cbn [join_ccodes flat_map].
+      change (map cl_l (b :: r) ++ [cl_l last])%list with (cl_l b :: (map cl_l r ++ [cl_l last]))%list.
+      remember (map cl_l r ++ [cl_l last])%list as rest eqn:Erest. cbn [run_lines].
+      assert (Hmore : match rest with [] => more | _ :: _ => true end = true) by (subst rest; destruct (map cl_l r); reflexivity).
+      rewrite Hmore. rewrite (commented_continuation _ _ _ _ st H1 H2 (or_intror H3)). cbn [bind]. subst rest.
+      rewrite (IH (Some (joined st (code_of (cl_code b)))) last more Hr Hc Hend Hns Hne).
+      destruct (parse_stmt _) as [x| | |]; cbn [bind]; try reflexivity. rewrite <- app_assoc. reflexivity.
+  Qed.
+End CommentedLines.
+
+(* the text handed to the statement parser depends on the codes of the lines alone: adding, removing or changing trailing comments
+   (with any text) leaves it — hence every parsed entity — unchanged *)
+Lemma join_ccodes_ext : forall (b1 b2 : list cline) st,
+  map (fun c => code_of (cl_code c)) b1 = map (fun c => code_of (cl_code c)) b2 -> join_ccodes st b1 = join_ccodes st b2.
+Proof.
+  induction b1 as [|c r IH]; intros [|c2 r2] st H; cbn [map] in H; try discriminate; [reflexivity|].
+  inversion H as [[H1 H2]]. cbn [join_ccodes]. rewrite H1. apply IH. exact H2.
+Qed.
+Theorem trailing_comments_over_lines_neutral : forall parse_stmt (b1 b2 : list cline) (l1 l2 : cline) st more1 more2,
+  Forall (fun c => commented_line (cl_l c) (cl_l' c) (cl_code c) (cl_cms c) /\ endswith (code_of (cl_code c)) ";" = false /\ starts_stmt (cl_code c) = false) b1 ->
+  Forall (fun c => commented_line (cl_l c) (cl_l' c) (cl_code c) (cl_cms c) /\ endswith (code_of (cl_code c)) ";" = false /\ starts_stmt (cl_code c) = false) b2 ->
+  commented_line (cl_l l1) (cl_l' l1) (cl_code l1) (cl_cms l1) -> commented_line (cl_l l2) (cl_l' l2) (cl_code l2) (cl_cms l2) ->
+  endswith (code_of (cl_code l1)) ";" = true -> starts_stmt (cl_code l1) = false ->
+  map (fun c => code_of (cl_code c)) b1 = map (fun c => code_of (cl_code c)) b2 -> code_of (cl_code l1) = code_of (cl_code l2) ->
+  String.eqb (drop_last (joined (join_ccodes st b1) (code_of (cl_code l1)))) "" = false ->
+  exists stmt,
+    run_lines parse_stmt (collecting st) (map cl_l b1 ++ [cl_l l1]) more1 = (do r <- parse_stmt stmt; Ok (lm0, (entities_of r, (flat_map cl_cms b1 ++ cl_cms l1)%list))) /\
+    run_lines parse_stmt (collecting st) (map cl_l b2 ++ [cl_l l2]) more2 = (do r <- parse_stmt stmt; Ok (lm0, (entities_of r, (flat_map cl_cms b2 ++ cl_cms l2)%list))).
+Proof.
+  intros parse_stmt b1 b2 l1 l2 st more1 more2 B1 B2 C1 C2 E1 S1 Hb Hl N.
+  exists (drop_last (joined (join_ccodes st b1) (code_of (cl_code l1)))). split.
+  - apply statement_over_commented_lines; assumption.
+  - rewrite (join_ccodes_ext b1 b2 st Hb) in *. rewrite Hl in N. rewrite Hl.
+    apply statement_over_commented_lines; try assumption.
+    + rewrite <- Hl. exact E1.
+    + unfold starts_stmt in *. rewrite <- Hl. exact S1.
+Qed.
